@@ -78,7 +78,7 @@ from glue.core.component import (Component, CategoricalComponent,
                                  DerivedComponent, CoordinateComponent,
                                  ExtendedComponent)
 from glue.core.subset import (OPSYM, SYMOP, CompositeSubsetState,
-                              SubsetState, Subset, RoiSubsetState,
+                              SubsetState, Subset, RoiSubsetState, RoiSubsetStateNd,
                               InequalitySubsetState, RangeSubsetState)
 from glue.core import (VisualAttributes, ComponentLink, DataCollection)
 from glue.core.component_link import CoordinateComponentLink
@@ -699,6 +699,20 @@ def _load_range_subset_state(rec, context):
     return RangeSubsetState(context.object(rec['lo']),
                             context.object(rec['hi']),
                             context.object(rec['att']))
+
+
+@saver(RoiSubsetStateNd)
+def _save_roi_subset_state_nd(state, context):
+    return dict(atts=[context.id(att) for att in state.attributes],
+                roi=context.id(state.roi),
+                pretransform=context.id(state.pretransform))
+
+
+@loader(RoiSubsetStateNd)
+def _load_roi_subset_state_nd(rec, context):
+    return RoiSubsetStateNd(atts=[context.object(att) for att in rec['atts']],
+                            roi=context.object(rec['roi']),
+                            pretransform=context.object(rec['pretransform']))
 
 
 @saver(RoiSubsetState)
